@@ -5,7 +5,7 @@ from symtrace import engine as E, harness as H, oblig as O
 from symtrace.concrete import flat, lincomb_of, Kit
 from . import catalogue as CAT
 from . import common as C
-from .catjob import Job
+from .catjob import lookup, Job
 from .c01 import is_heavy
 
 PID = "C05"
@@ -84,8 +84,8 @@ def run_summaries(env, spec):
 def run_job(env, spec):
     if spec.get("kind") == "summaries":
         return run_summaries(env, spec)
-    entry = CAT.by_name(spec["cfg"]["n"], "thorough")[spec["entry"]]
-    job = Job(PID, env, spec, entry)
+    entry = lookup(spec)
+    job = Job(spec.get("pid", PID), env, spec, entry, spec.get("catalogue", "checks.catalogue"))
     job.cfg["want_ref"] = False      # the reference is evaluated per path afterwards (analysis mode, no forking)
     kit = Kit(env, None, job.cfg["n"], job.cfg.get("r", 2))
     twin_done = False
